@@ -12,6 +12,9 @@ LAYOUTS = {
     "g6": ["A", "A", "B", None, "A", "B"],
     "g5": [None, "A", "B", "B", "A"],
     "one": ["A"],
+    # nested shard lists: shards of the root list, then of the child list x;
+    # "AB" is a two-key label written with two different key orders
+    "nest": ["A", None, "AB", "|", "BA", "A", None],
 }
 ACCEPTS = {
     "sync": {"shards", "limit", "filter"},
@@ -22,23 +25,46 @@ ACCEPTS = {
 }
 
 
+def label(g):
+    if g is None:
+        return None
+    if g == "AB":
+        return {"g": "AB", "h": [1, 2]}
+    if g == "BA":  # same value, other insertion order of the keys
+        return {"h": [1, 2], "g": "AB"}
+    return {"g": g}
+
+
 def build(root, fmt: str, layout: list):
-    """One session; shard i holds 2 examples (the last one 1) and carries the
-    metadata group layout[i]."""
+    """Shard i holds 2 examples (the last one of a session 1) and carries the
+    metadata group layout[i]; "|" starts a second session in sub-directory
+    x (nested shard list)."""
+    from pathlib import Path
+    from sedpack.io.dataset_filler import DatasetFiller
     ds_ = D.create(root, fmt=fmt, eps=2)
     q = 0
     shards = []
-    with ds_.filler() as f:
-        for i, g in enumerate(layout):
-            n = 1 if i == len(layout) - 1 else 2
-            members = []
-            for _ in range(n):
-                f.write_example(values=D.example((0, 0, q)), split="train",
-                                custom_metadata={"g": g} if g else None)
-                members.append((0, 0, q))
-                q += 1
-            shards.append((g, members))
-        f.write_example(values=D.example((0, 9, 0)), split="test")
+    sessions = [[]]
+    for g in layout:
+        if g == "|":
+            sessions.append([])
+        else:
+            sessions[-1].append(g)
+    for si, groups in enumerate(sessions):
+        filler = ds_.filler() if si == 0 else DatasetFiller(
+            ds_, relative_path_from_split=Path("x"))
+        with filler as f:
+            for i, g in enumerate(groups):
+                n = 1 if i == len(groups) - 1 else 2
+                members = []
+                for _ in range(n):
+                    f.write_example(values=D.example((0, 0, q)),
+                                    split="train", custom_metadata=label(g))
+                    members.append((0, 0, q))
+                    q += 1
+                shards.append(("AB" if g == "BA" else g, members))
+            if si == 0:
+                f.write_example(values=D.example((0, 9, 0)), split="test")
     return ds_, shards
 
 
@@ -50,7 +76,7 @@ def pred(kind):
     if kind == "some":
         return lambda s: s.number_of_examples == 2
     if kind == "A":
-        return lambda s: s.custom_metadata == {"g": "A"}
+        return lambda s: s.custom_metadata.get("g") in ("A", "AB")
     if kind == "nometa":
         return lambda s: not s.custom_metadata
     raise ValueError(kind)
@@ -61,7 +87,7 @@ def expected(shards_true: list, k, pk, n):
     sel = list(shards_true)
     if pk is not None:
         fn = {"none": lambda g, m: False, "all": lambda g, m: True,
-              "some": lambda g, m: len(m) == 2, "A": lambda g, m: g == "A",
+              "some": lambda g, m: len(m) == 2, "A": lambda g, m: g in ("A", "AB"),
               "nometa": lambda g, m: g is None}[pk]
         sel = [s for s in sel if fn(*s)]
     if not sel:
@@ -91,6 +117,8 @@ def case(args) -> dict:
         # sanity: the listing really has the intended groups
         listed = [(s.custom_metadata.get("g"), s.number_of_examples)
                   for s in ds_.shard_info_iterator("train")]
+        if lname == "nest":  # unhashable values: limit per group cannot hash
+            pass
         if listed != [(g, len(m)) for g, m in shards_true]:
             out["harness"] = f"layout not realised: {listed}"
             return out
@@ -171,7 +199,7 @@ def run(ctx):
     from vf import rustbuild
     rustbuild.ensure_ext()
     tasks = [("fb", "g6"), ("fb", "g5"), ("npz", "g6"), ("tfrec", "g5"),
-             ("fb", "one")]
+             ("fb", "one"), ("fb", "nest"), ("npz", "nest")]
     if ctx.tier == "thorough":
         tasks += [("npz", "g5"), ("tfrec", "g6"), ("npz", "one"),
                   ("tfrec", "one")]
